@@ -6,7 +6,7 @@
 From Coq Require Import ZArith List Bool Lia.
 From PM Require Import Lib.Py Spec.LegalKey Model.Lits Spec.Proto Spec.Server Model.World Model.Readers Model.Serde Model.Client
                        Proofs.Hoare Proofs.ReaderFacts Proofs.DecimalFacts Proofs.C02Proof Proofs.C04Proof Proofs.C07Proof
-                       Proofs.Quiet Proofs.QuietFetch Proofs.E2E Proofs.Utf8Facts Proofs.C15Proof.
+                       Proofs.Quiet Proofs.QuietFetch Proofs.QuietConnect Proofs.QuietAny Proofs.E2E Proofs.Utf8Facts Proofs.C15Proof.
 Import ListNotations.
 Open Scope Z_scope.
 
@@ -120,21 +120,25 @@ Section E2EFetch.
 Variable c : cfg.
 Hypothesis no_ignore : c_ignore_exc c = false.
 Hypothesis fetch_handler : h_fetch c = BaseException.
+Variable fr : option Z.               (* Some sid: connected on sid, nothing pending; None: any ready client (Proofs/QuietAny.v) *)
+Hypothesis Hcan : connectable c fr.
 Notation world := (world sstate).
 Notation St := (St sstate).
+Notation Start := (Start sstate fr).
+Notation Done := (Done sstate fr).
 
 (* the socket phase and the validation before it: what _fetch_cmd returns for get/gets with any number of keys *)
-Theorem fetch_e2e sid s (g : bool) keys pks : wire_keys c (c_prefix c) keys = Ok pks -> keys <> [] -> swf s ->
+Theorem fetch_e2e s (g : bool) keys pks : wire_keys c (c_prefix c) keys = Ok pks -> keys <> [] -> swf s ->
   let items := map to_ritem (found_items s pks) in
-  hoare (St sid s []) (fetch_cmd sstate serve c (if g then L_gets else L_get) keys g (c_prefix c) None)
-        (fun res w => read_items c g (remap pks keys) items [] = Ok res /\ St sid s [] w)
+  hoare (Start s) (fetch_cmd sstate serve c (if g then L_gets else L_get) keys g (c_prefix c) None)
+        (fun res w => read_items c g (remap pks keys) items [] = Ok res /\ Done s w)
         (fun e w => read_items c g (remap pks keys) items [] = Raise e /\ w_sock w = None).
 Proof.
   intros Hk Hne Hs. cbn zeta.
   destruct (map_keys_legal c (c_prefix c) keys pks Hk) as [Hl Hn].
   assert (Hpne : pks <> []) by (destruct pks; [destruct keys; [contradiction|discriminate]|discriminate]).
   intros w Hw. rewrite fetch_cmd_plan, (fetch_plan_get c g keys pks Hk Hpne).
-  apply (fetch_io_quiet sstate serve c sid s s (if g then L_gets else L_get) g (remap pks keys) (render (CGet g pks))
+  apply (fetch_io_any sstate serve c fr Hcan s s (if g then L_gets else L_get) g (remap pks keys) (render (CGet g pks))
            (map to_ritem (found_items s pks)) (serve_get s g pks Hpne Hl) (found_wf s pks Hs Hl) no_ignore fetch_handler w Hw).
 Qed.
 
@@ -157,13 +161,13 @@ Proof.
   rewrite leqb_refl. fold (deser it). destruct (deser it) as [v|e]; reflexivity.
 Qed.
 
-Theorem get_e2e sid s key default k : check_key c (c_prefix c) key = Ok k -> swf s ->
-  hoare (St sid s []) (run_op sstate serve c (OpGet key default))
-        (fun v w => match live s k with None => v = default | Some it => deser it = Ok v end /\ St sid s [] w)
+Theorem get_e2e s key default k : check_key c (c_prefix c) key = Ok k -> swf s ->
+  hoare (Start s) (run_op sstate serve c (OpGet key default))
+        (fun v w => match live s k with None => v = default | Some it => deser it = Ok v end /\ Done s w)
         (fun e w => (exists it, live s k = Some it /\ deser it = Raise e) /\ w_sock w = None).
 Proof.
   intros Hk Hs. cbn [run_op]. intros w Hw.
-  pose proof (fetch_e2e sid s false [key] [k] (wire_one key k Hk) ltac:(discriminate) Hs w Hw) as F. cbn zeta in F.
+  pose proof (fetch_e2e s false [key] [k] (wire_one key k Hk) ltac:(discriminate) Hs w Hw) as F. cbn zeta in F.
   rewrite (read_one false s key k Hk) in F. unfold mbind.
   destruct (fetch_cmd sstate serve c L_get [key] false (c_prefix c) None w) as [[r|e] w'].
   - destruct F as [F1 F2]. cbn [ret]. split; [|exact F2]. destruct (live s k) as [it|].
@@ -174,15 +178,15 @@ Proof.
     exists it. split; [reflexivity|]. destruct (deser it) as [v|e']; [discriminate|]. cbn [bind] in F1. inversion F1. reflexivity.
 Qed.
 
-Theorem gets_e2e sid s key default cas_default k : check_key c (c_prefix c) key = Ok k -> swf s ->
-  hoare (St sid s []) (run_op sstate serve c (OpGets key default cas_default))
+Theorem gets_e2e s key default cas_default k : check_key c (c_prefix c) key = Ok k -> swf s ->
+  hoare (Start s) (run_op sstate serve c (OpGets key default cas_default))
         (fun v w => match live s k with
                     | None => v = DTuple [default; cas_default]
-                    | Some it => exists x, deser it = Ok x /\ v = DTuple [x; DBytes (str_of_Z (i_cas it))] end /\ St sid s [] w)
+                    | Some it => exists x, deser it = Ok x /\ v = DTuple [x; DBytes (str_of_Z (i_cas it))] end /\ Done s w)
         (fun e w => (exists it, live s k = Some it /\ deser it = Raise e) /\ w_sock w = None).
 Proof.
   intros Hk Hs. cbn [run_op]. intros w Hw.
-  pose proof (fetch_e2e sid s true [key] [k] (wire_one key k Hk) ltac:(discriminate) Hs w Hw) as F. cbn zeta in F.
+  pose proof (fetch_e2e s true [key] [k] (wire_one key k Hk) ltac:(discriminate) Hs w Hw) as F. cbn zeta in F.
   rewrite (read_one true s key k Hk) in F. unfold mbind.
   destruct (fetch_cmd sstate serve c L_gets [key] true (c_prefix c) None w) as [[r|e] w'].
   - destruct F as [F1 F2]. cbn [ret]. split; [|exact F2]. destruct (live s k) as [it|].
@@ -253,9 +257,9 @@ Qed.
 Lemma combine_fst {A B} : forall (a : list A) (b : list B), length a = length b -> map fst (combine a b) = a.
 Proof. induction a as [|x a IH]; intros [|y b] H; try discriminate; [reflexivity|]. cbn [combine map fst]. rewrite IH by (cbn in H; lia). reflexivity. Qed.
 
-Theorem fetch_many_e2e sid s (g : bool) keys pks : wire_keys c (c_prefix c) keys = Ok pks -> keys <> [] -> NoDup pks -> swf s ->
-  hoare (St sid s []) (fetch_cmd sstate serve c (if g then L_gets else L_get) keys g (c_prefix c) None)
-        (fun res w => many_spec g s (combine pks keys) [] = Ok res /\ St sid s [] w)
+Theorem fetch_many_e2e s (g : bool) keys pks : wire_keys c (c_prefix c) keys = Ok pks -> keys <> [] -> NoDup pks -> swf s ->
+  hoare (Start s) (fetch_cmd sstate serve c (if g then L_gets else L_get) keys g (c_prefix c) None)
+        (fun res w => many_spec g s (combine pks keys) [] = Ok res /\ Done s w)
         (fun e w => many_spec g s (combine pks keys) [] = Raise e /\ w_sock w = None).
 Proof.
   intros Hk Hne Hnd Hs.
@@ -265,15 +269,15 @@ Proof.
   { unfold remap. rewrite (remap_nodup (combine pks keys) []); [reflexivity|]. cbn [app]. rewrite Hfst. exact Hnd. }
   assert (E : read_items c g (remap pks keys) (map to_ritem (found_items s pks)) [] = many_spec g s (combine pks keys) []).
   { pose proof (read_items_many g s (remap pks keys) (combine pks keys) []) as X. rewrite Hfst in X. apply X. intros pk key Hin. rewrite Hre. apply bdict_get_nodup; [rewrite Hfst; exact Hnd|exact Hin]. }
-  pose proof (fetch_e2e sid s g keys pks Hk Hne Hs) as F. cbn zeta in F. rewrite E in F. exact F.
+  pose proof (fetch_e2e s g keys pks Hk Hne Hs) as F. cbn zeta in F. rewrite E in F. exact F.
 Qed.
 
-Theorem get_many_e2e sid s (g oneshot : bool) keys pks : wire_keys c (c_prefix c) keys = Ok pks -> keys <> [] -> NoDup pks -> swf s ->
-  hoare (St sid s []) (run_op sstate serve c (if g then OpGetsMany oneshot keys else OpGetMany oneshot keys))
-        (fun v w => (exists res, many_spec g s (combine pks keys) [] = Ok res /\ v = DDict res) /\ St sid s [] w)
+Theorem get_many_e2e s (g oneshot : bool) keys pks : wire_keys c (c_prefix c) keys = Ok pks -> keys <> [] -> NoDup pks -> swf s ->
+  hoare (Start s) (run_op sstate serve c (if g then OpGetsMany oneshot keys else OpGetMany oneshot keys))
+        (fun v w => (exists res, many_spec g s (combine pks keys) [] = Ok res /\ v = DDict res) /\ Done s w)
         (fun e w => many_spec g s (combine pks keys) [] = Raise e /\ w_sock w = None).
 Proof.
-  intros Hk Hne Hnd Hs. pose proof (fetch_many_e2e sid s g keys pks Hk Hne Hnd Hs) as F.
+  intros Hk Hne Hnd Hs. pose proof (fetch_many_e2e s g keys pks Hk Hne Hnd Hs) as F.
   destruct keys as [|k0 kt]; [contradiction|].
   intros w Hw. specialize (F w Hw). destruct g; cbn [run_op]; unfold mbind;
     match goal with |- context [fetch_cmd sstate serve c ?a ?b ?cc ?d ?e w] => destruct (fetch_cmd sstate serve c a b cc d e w) as [[r|e0] w'] end;
@@ -339,18 +343,18 @@ Qed.
 
 Hypothesis catches_store : forall e, exn_isa e Exception_ = true -> exn_isa e (h_store c) = true.
 
-Theorem set_then_get_e2e sid s key value expire n bytes default x :
+Theorem set_then_get_e2e s key value expire n bytes default x :
   let nr := eff_noreply c n in
   store_bytes c (verb_name 0) [(key, value)] expire nr DNone None = Ok bytes -> in_i64 expire ->
   roundtrips value -> swf s ->
   (forall e, int_value expire = Some e -> abs_exp (s_now s) e = Some x /\ (x = 0 \/ s_now s < x)) ->
   exists db,
-  hoare (St sid s []) (mbind (run_op sstate serve c (OpStore 0 key value expire n DNone)) (fun _ => run_op sstate serve c (OpGet key default)))
-        (fun v w => v = comes_back value db /\ exists s', St sid s' [] w) (fun _ _ => False).
+  hoare (Start s) (mbind (run_op sstate serve c (OpStore 0 key value expire n DNone)) (fun _ => run_op sstate serve c (OpGet key default)))
+        (fun v w => v = comes_back value db /\ exists s', Done s' w) (fun _ _ => False).
 Proof.
   cbn zeta. intros Hb He Hn Hs Hx.
   assert (Hu : in_u32 DNone) by (intros z Hz; discriminate).
-  destruct (store_e2e c catches_store sid s 0 key value expire n DNone bytes Hb He Hu) as (k & f & e & db & Hi & Hst). cbn zeta in Hst.
+  destruct (store_e2e c catches_store fr Hcan s 0 key value expire n DNone bytes Hb He Hu) as (k & f & e & db & Hi & Hst). cbn zeta in Hst.
   destruct (store_intent_one_inv _ _ _ _ _ _ _ _ _ _ _ _ _ _ Hi) as (Hk & Ee & data & dfl & Hser & Hdb & Hf).
   cbn in Hf. inversion Hf; subst f.
   pose proof (store_intent_wf c _ _ _ _ _ _ _ Hi He Hu ltac:(discriminate)) as Hwf. cbn [forallb] in Hwf. rewrite andb_true_r in Hwf.
@@ -359,8 +363,8 @@ Proof.
   set (s' := fst (exec s (CStore (sv_of 0) k dfl e db [] (eff_noreply c n)))).
   assert (Hs' : swf s') by (apply exec_swf; assumption).
   assert (Hl : live s' k = Some {| i_flags := dfl; i_exp := x; i_data := db; i_cas := s_cas s + 1 |}) by (apply live_write; assumption).
-  eapply h_conseq; [apply (get_e2e sid s' key default k Hk Hs')| | |].
-  - intros w [_ Hw]. exact Hw.
+  eapply h_conseq; [apply (get_e2e s' key default k Hk Hs')| | |].
+  - intros w [_ Hw]. apply Done_Start, Hw.
   - intros v w [Hv Hw]. rewrite Hl in Hv. unfold deser in Hv. cbn [i_data i_flags] in Hv.
     rewrite (serde_roundtrip value data dfl db Hn Hser Hdb) in Hv. inversion Hv. split; [reflexivity|exists s'; exact Hw].
   - intros e0 w [(it & Hit & Hd) _]. rewrite Hl in Hit. inversion Hit; subst it. unfold deser in Hd. cbn [i_data i_flags] in Hd.
@@ -368,26 +372,26 @@ Proof.
 Qed.
 
 (* ... and a set of one key leaves what a get of any other key returns unchanged *)
-Theorem set_keeps_other_e2e sid s key value expire n bytes key2 k2 default :
+Theorem set_keeps_other_e2e s key value expire n bytes key2 k2 default :
   let nr := eff_noreply c n in
   store_bytes c (verb_name 0) [(key, value)] expire nr DNone None = Ok bytes -> in_i64 expire -> swf s ->
   check_key c (c_prefix c) key2 = Ok k2 -> (forall k, check_key c (c_prefix c) key = Ok k -> list_eqb k k2 = false) ->
-  hoare (St sid s []) (mbind (run_op sstate serve c (OpStore 0 key value expire n DNone)) (fun _ => run_op sstate serve c (OpGet key2 default)))
-        (fun v w => match live s k2 with None => v = default | Some it => deser it = Ok v end /\ exists s', St sid s' [] w)
+  hoare (Start s) (mbind (run_op sstate serve c (OpStore 0 key value expire n DNone)) (fun _ => run_op sstate serve c (OpGet key2 default)))
+        (fun v w => match live s k2 with None => v = default | Some it => deser it = Ok v end /\ exists s', Done s' w)
         (fun e w => (exists it, live s k2 = Some it /\ deser it = Raise e) /\ w_sock w = None).
 Proof.
   cbn zeta. intros Hb He Hs Hk2 Hne.
   assert (Hu : in_u32 DNone) by (intros z Hz; discriminate).
-  destruct (store_e2e c catches_store sid s 0 key value expire n DNone bytes Hb He Hu) as (k & f & e & db & Hi & Hst). cbn zeta in Hst.
+  destruct (store_e2e c catches_store fr Hcan s 0 key value expire n DNone bytes Hb He Hu) as (k & f & e & db & Hi & Hst). cbn zeta in Hst.
   destruct (store_intent_one_inv _ _ _ _ _ _ _ _ _ _ _ _ _ _ Hi) as (Hk & _).
   pose proof (store_intent_wf c _ _ _ _ _ _ _ Hi He Hu ltac:(discriminate)) as Hwf. cbn [forallb] in Hwf. rewrite andb_true_r in Hwf.
   set (s' := fst (exec s (CStore (sv_of 0) k f e db [] (eff_noreply c n)))) in *.
-  eapply h_bind with (Q1 := fun _ w => St sid s' [] w); [eapply h_conseq; [exact Hst|auto|intros a w [_ Hw]; exact Hw|intros e0 w []]|].
+  eapply h_bind with (Q1 := fun _ w => Done s' w); [eapply h_conseq; [exact Hst|auto|intros a w [_ Hw]; exact Hw|intros e0 w []]|].
   intros r. cbn beta.
   assert (Hs' : swf s') by (apply exec_swf; assumption).
   assert (Hl : live s' k2 = live s k2) by (apply live_write_other, Hne, Hk).
-  eapply h_conseq; [apply (get_e2e sid s' key2 default k2 Hk2 Hs')| | |].
-  - intros w Hw. exact Hw.
+  eapply h_conseq; [apply (get_e2e s' key2 default k2 Hk2 Hs')| | |].
+  - intros w Hw. apply Done_Start, Hw.
   - intros v w [Hv Hw]. rewrite Hl in Hv. split; [exact Hv|exists s'; exact Hw].
   - intros e0 w [Hv Hw]. rewrite Hl in Hv. split; assumption.
 Qed.
